@@ -120,10 +120,11 @@ def run(repo: Repo, chk: Check) -> None:
     chk.set_clause('C01.2')
     nc = 0
     prims_seen: Set[str] = set()
-    for prim, args, stack, desc in cases():
+    thorough = chk.tier == 'thorough'
+    for prim, args, stack, desc in cases(thorough):
         nc += 1
         prims_seen.add(prim)
-        q, got, want = run_case(repo, prim, args, stack)
+        q, got, want = run_case(repo, prim, args, stack, unroll=5 if thorough else 3)
         if q is None:
             chk.ob('R-TEMPLATE', f'{prim}/{len(args)}', False, f'{desc}: class found', None, what=f'no unique class for {prim}/{len(args)}')
             continue
